@@ -1,9 +1,10 @@
 import FastgoModel.Spec.Inflate
+import FastgoModel.Writer.Replay
 /-
   Line-protocol driver of the executable models (`lake build fgmodel`).
   One case per input line, one answer line per case. Bytes travel as lowercase hex.
 -/
-open Fastgo Fastgo.Spec
+open Fastgo Fastgo.Spec Fastgo.Writer
 
 def hexVal (c : Char) : Option Nat :=
   if '0' ≤ c ∧ c ≤ '9' then some (c.toNat - '0'.toNat)
@@ -47,6 +48,45 @@ def answerInflate (mode : Mode) (dict stream : List UInt8) : String :=
     let o := strip out
     s!"corrupt n={o.size} h={fnv o} {statsStr st}"
 
+/-! ### W: the Writer control model with replayed leaves -/
+
+def parseNat! (s : String) : Nat := s.toNat?.getD 0
+
+def parseEv (s : String) : Option Ev :=
+  match s.splitOn ":" with
+  | ["g", fl, e, p, i, tin, nidx, tout] =>
+    some (.g (fl = "1") (parseNat! e) (parseNat! p) (parseNat! i) (parseNat! tin) (parseNat! nidx) (parseNat! tout))
+  | ["d", size, tok] => some (.d (parseNat! size) (parseNat! tok))
+  | ["r"] => some .r
+  | _ => none
+
+def parseOp (s : String) : Option Writer.Op :=
+  if s = "f" then some .flush
+  else if s = "c" then some .close
+  else if s = "r" then some (.reset { fail := fun _ => false })
+  else if s.startsWith "w" then some (.write (List.replicate (parseNat! (s.drop 1).toString) 0))
+  else none
+
+def errStr : Option Writer.Err → String
+  | none => "ok"
+  | some .injected => "injected"
+  | some .closed => "closed"
+
+def answerW (window maxTok : Nat) (fails : List Nat) (ops : List Writer.Op) (log : List Ev) : String :=
+  let L := replayLeaves log
+  let c : Writer.Cfg := { window := window, maxTok := maxTok }
+  let w0 : WState RMF Unit := WState.init L { fail := fun k => fails.contains k }
+  let rec go (w : WState RMF Unit) (ops : List Writer.Op) (acc : List String) : WState RMF Unit × List String :=
+    match ops with
+    | [] => (w, acc.reverse)
+    | op :: rest =>
+      let (w1, r) := Writer.step L c w op
+      let line := s!"{r.n},{errStr r.err},{w1.dyn.idx},{w1.dyn.buf.length},{w1.dyn.processed},{w1.dyn.tokens.length},{w1.dst.calls}"
+      go w1 rest (line :: acc)
+  let (w, lines) := go w0 ops []
+  let bad := match w.dyn.mf.bad with | none => "-" | some m => m
+  s!"{String.intercalate ";" lines} left={(takeChunks w.dyn.mf.log).2.length} bad={bad}"
+
 def step (line : String) : String :=
   match (line.trimAscii.toString.splitOn " ") with
   | ["I", mode, dict, stream] =>
@@ -55,6 +95,11 @@ def step (line : String) : String :=
       let m := if mode = "strict" then Mode.strict else Mode.permissive
       answerInflate m d s
     | _, _ => "bad-hex"
+  | ["W", window, maxTok, fails, ops, evs] =>
+    let fl := if fails = "-" then [] else (fails.splitOn ",").map parseNat!
+    let os := (ops.splitOn ",").filterMap parseOp
+    let es := if evs = "-" then [] else (evs.splitOn ";").filterMap parseEv
+    answerW (parseNat! window) (parseNat! maxTok) fl os es
   | _ => "bad-op"
 
 partial def loop (h : IO.FS.Stream) (out : IO.FS.Stream) : IO Unit := do
